@@ -76,6 +76,12 @@ func C13(c *Ctx) {
 			}
 			continue
 		}
+		if s.Kind == "mapderef" {
+			if why := keyFromOwnKeySet(g, s); why != "" {
+				r.Ok("C13-a", construct, "", g.Where(s.Pos), "impossible: "+why)
+				continue
+			}
+		}
 		rs, ok := crashReasons[s.Key]
 		if !ok {
 			r.Bad("C13-a", construct, "", g.Where(s.Pos), s.What+": reachable from main with no reason why it cannot fire")
@@ -181,6 +187,87 @@ func enumerateCrashSites(c *Ctx, g *load.G) []crashSite {
 		}
 	}
 	return out
+}
+
+// keyFromOwnKeySet recognises M[k].f where k is the value variable of a range over a slice that the same
+// function filled exclusively with the keys of M (for key := range M { S = append(S, key) }) and M is not
+// written in that function: the lookup cannot miss.
+func keyFromOwnKeySet(g *load.G, s crashSite) string {
+	var fd *ast.FuncDecl
+	for _, sfx := range []string{"", "ast", "builder"} {
+		for _, f := range load.AllFuncDecls(g.Pkg(sfx)) {
+			if f.Body != nil && f.Pos() <= s.Pos && s.Pos < f.End() {
+				fd = f
+			}
+		}
+	}
+	if fd == nil {
+		return ""
+	}
+	var ix *ast.IndexExpr
+	ast.Inspect(fd.Body, func(n ast.Node) bool {
+		if sel, ok := n.(*ast.SelectorExpr); ok && sel.Pos() == s.Pos {
+			ix, _ = sel.X.(*ast.IndexExpr)
+		}
+		return true
+	})
+	if ix == nil {
+		return ""
+	}
+	m, k := nospace(ix.X), nospace(ix.Index)
+	// k is the value variable of `for _, k := range S`
+	slice := ""
+	ast.Inspect(fd.Body, func(n ast.Node) bool {
+		if rs, ok := n.(*ast.RangeStmt); ok && rs.Value != nil && nospace(rs.Value) == k && rs.Pos() <= s.Pos && s.Pos < rs.End() {
+			slice = nospace(rs.X)
+		}
+		return true
+	})
+	if slice == "" {
+		return ""
+	}
+	// every store to S is `S = append(S, key)` inside `for key := range M`, or its make/declaration
+	okFill, other := false, false
+	ast.Inspect(fd.Body, func(n ast.Node) bool {
+		switch x := n.(type) {
+		case *ast.AssignStmt:
+			for i, l := range x.Lhs {
+				if nospace(l) != slice {
+					if strings.HasPrefix(nospace(l), m+"[") {
+						other = true // the map is written
+					}
+					continue
+				}
+				rhs := nospace(x.Rhs[i])
+				if strings.HasPrefix(rhs, "make(") {
+					continue
+				}
+				filled := false
+				ast.Inspect(fd.Body, func(mn ast.Node) bool {
+					if rs, ok := mn.(*ast.RangeStmt); ok && nospace(rs.X) == m && rs.Key != nil && rs.Pos() <= x.Pos() && x.Pos() < rs.End() {
+						if rhs == "append("+slice+","+nospace(rs.Key)+")" {
+							filled = true
+						}
+					}
+					return true
+				})
+				if filled {
+					okFill = true
+				} else {
+					other = true
+				}
+			}
+		case *ast.CallExpr:
+			if callName(x) == "delete" && len(x.Args) == 2 && nospace(x.Args[0]) == m {
+				other = true
+			}
+		}
+		return true
+	})
+	if okFill && !other {
+		return "the key ranges over a slice filled only with the keys of " + m + " in this function, and " + m + " is not modified there"
+	}
+	return ""
 }
 
 // commaOK reports whether the type assertion is used in `v, ok := x.(T)` / `v, ok = x.(T)` form.
